@@ -170,7 +170,8 @@ def test_str_methods(n=200, seed=3):
     def drv(s, sep, k):
         return (s.partition(sep), s.rpartition(sep), s.split(sep, k), s.rsplit(sep, k), s.rsplit(sep), s.replace(sep, "<>", k), s.count(sep),
                 s.removeprefix(sep), s.removesuffix(sep), s.ljust(7, "."), s.rjust(7), s.center(8, "*"), s.center(7, "*"),
-                s.find(sep), s.rfind(sep), s.startswith(sep), s.endswith(sep), s.strip("="), s.lstrip("a"), s.split(sep))
+                s.find(sep), s.rfind(sep), s.startswith(sep), s.endswith(sep), s.strip("="), s.lstrip("a"), s.split(sep),
+                f"{s:<6}|", f"{s:>{k + 4}}|", f"{s:*^7}|", f"{s:.2}|", f"{s!r:>9}|")
     rnd = random.Random(seed)
     bad = 0
     norm = lambda x: tuple(tuple(y) if isinstance(y, (list, tuple)) else y for y in x)
